@@ -589,6 +589,41 @@ macro_rules! field_suite {
             }
             #[cfg(not(feature = "ark"))]
             pub fn emit_str(_out: &mut dyn Write, _r: &mut ChaCha20Rng, _a: F) {}
+            /// FromStr on structured digit strings: powers of ten, runs of zeros / nines at either end, every length
+            #[cfg(feature = "ark")]
+            pub fn emit_str_structured(out: &mut dyn Write, r: &mut ChaCha20Rng) {
+                use std::str::FromStr;
+                let mut strings: Vec<Vec<u8>> = Vec::new();
+                for k in 0..140usize {
+                    let mut p10 = vec![1u8];
+                    p10.extend(std::iter::repeat(0u8).take(k));
+                    strings.push(p10.clone());                         // 10^k
+                    strings.push(vec![9u8; k + 1]);                    // 10^(k+1) - 1
+                    let mut z = vec![0u8; k];                          // k leading zeros, then random digits
+                    z.extend((0..(1 + below(r, 30))).map(|_| below(r, 10) as u8));
+                    strings.push(z);
+                    let mut t: Vec<u8> = (0..(1 + below(r, 60))).map(|_| 1 + below(r, 9) as u8).collect();   // random digits then k trailing zeros
+                    t.extend(std::iter::repeat(0u8).take(k % 40));
+                    strings.push(t);
+                }
+                for (i, ds) in strings.iter().enumerate() {
+                    if i % 150 == 149 {
+                        emit(out, json!({"k":"reset","build":BUILD}));
+                    }
+                    let s: String = ds.iter().map(|d| (b'0' + d) as char).collect();
+                    let ev = json!({"k":"ffromstr","field":NAME,"ds":ds});
+                    let rr = guarded(|| F::from_str(&s));
+                    emit(
+                        out,
+                        finish(
+                            ev,
+                            rr.and_then(|x| x.map_err(|_| "from_str rejected a digit string".to_string())).map(|x| json!({"out":b(&x)})),
+                        ),
+                    );
+                }
+            }
+            #[cfg(not(feature = "ark"))]
+            pub fn emit_str_structured(_out: &mut dyn Write, _r: &mut ChaCha20Rng) {}
             #[cfg(feature = "ark")]
             pub fn emit_sqrt(out: &mut dyn Write, a: F) {
                 let ev = json!({"k":"flegendre","field":NAME,"a":b(&a)});
@@ -661,6 +696,12 @@ macro_rules! field_suite {
                     emit(out, json!({"k":"reset","build":BUILD}));
                     for i in 0..FOLD.len() {
                         for xs in [vec![], vec![al[2]], vec![al[2], al[3]], vec![al[1], al[2], al[3], al[4], al[5]], vec![al[0], al[3]]] {
+                            emit_fold(out, i, &xs);
+                        }
+                        // long iterators, around plausible chunk sizes (the zero of the alphabet is skipped so that
+                        // products stay informative)
+                        for n in [16usize, 17, 64, 65, 255, 256, 257, 1000] {
+                            let xs: Vec<F> = (0..n).map(|j| al[1 + (j * 7 + n) % (al.len() - 1)]).filter(|x| *x != F::ZERO).collect();
                             emit_fold(out, i, &xs);
                         }
                     }
@@ -809,6 +850,12 @@ macro_rules! field_suite {
                         for ri in 0..REDUCE.len() {
                             emit_reduce(out, ri, &v);
                         }
+                    }
+                    emit(out, json!({"k":"reset","build":BUILD}));
+                    emit_str_structured(out, r);
+                    emit(out, json!({"k":"reset","build":BUILD}));
+                    for a in al.iter() {
+                        emit_str(out, r, of(a));
                     }
                     for k in 1..=4usize {
                         // p, p-1, p+1 placed in every chunk position
@@ -964,6 +1011,16 @@ macro_rules! field_suite {
                         emit_bin(out, i, x, y);
                     }
                 }
+                if op == "eq" {
+                    // pairs that differ in a structured way in their internal representation: every equality form,
+                    // both orders, the ordering, and hashing coherence
+                    for i in 0..EQ.len() {
+                        emit_eq(out, i, x, y);
+                        emit_eq(out, i, y, x);
+                    }
+                    emit_cmp(out, x, y);
+                    emit_cmp(out, y, x);
+                }
                 if op == "mul" {
                     // the product also through square / inverse paths: (x*y) computed as ((x+y)^2 - (x-y)^2)/4 is not
                     // an API call; instead exercise square on both operands and the unary forms on the product
@@ -997,10 +1054,30 @@ field_suite!(fq, decaf377::Fq, "Fq", 32, 4, Q_LE, true);
 field_suite!(fr, decaf377::Fr, "Fr", 32, 4, R_LE, false);
 field_suite!(fp, decaf377::Fp, "Fp", 48, 6, P_LE, false);
 
+/// Fq-only forms on one pair: constant-time selection and equality
+fn fq_pair(out: &mut dyn Write, a: &decaf377::Fq, b: &decaf377::Fq) {
+    use decaf377::Fq;
+    use subtle::{ConditionallySelectable, ConstantTimeEq};
+    for choice in [0u8, 1] {
+        let ev = json!({"k":"fsel","field":"Fq","form":"conditional_select","a":fq::b(a),"b":fq::b(b),"choice":choice});
+        let rr = guarded(|| Fq::conditional_select(a, b, choice.into()));
+        emit(out, finish(ev, rr.map(|x| json!({"out":fq::b(&x)}))));
+    }
+    for (x, y) in [(a, b), (b, a)] {
+        let ev = json!({"k":"feq","field":"Fq","form":"ct_eq","a":fq::b(x),"b":fq::b(y)});
+        let rr = guarded(|| bool::from(x.ct_eq(y)));
+        emit(out, finish(ev, rr.map(|x| json!({"out":x}))));
+    }
+    // a value and the same value reached by arithmetic must be ct_eq
+    let a2 = *a + *b - *b;
+    let ev = json!({"k":"feq","field":"Fq","form":"ct_eq","a":fq::b(a),"b":fq::b(&a2)});
+    let rr = guarded(|| bool::from(a.ct_eq(&a2)));
+    emit(out, finish(ev, rr.map(|x| json!({"out":x}))));
+}
+
 /// Fq-only forms: constant-time selection / equality, `power`
 fn fq_extra(out: &mut dyn Write, r: &mut ChaCha20Rng, n: usize) {
     use decaf377::Fq;
-    use subtle::{ConditionallySelectable, ConstantTimeEq};
     emit(out, json!({"k":"reset","build":BUILD}));
     let al: Vec<Fq> = operand_alphabet(&Q_LE).iter().map(|x| fq::of(x)).collect();
     let mut pairs: Vec<(Fq, Fq)> = Vec::new();
@@ -1018,19 +1095,7 @@ fn fq_extra(out: &mut dyn Write, r: &mut ChaCha20Rng, n: usize) {
         if i % 200 == 199 {
             emit(out, json!({"k":"reset","build":BUILD}));
         }
-        for choice in [0u8, 1] {
-            let ev = json!({"k":"fsel","field":"Fq","form":"conditional_select","a":fq::b(a),"b":fq::b(b),"choice":choice});
-            let rr = guarded(|| Fq::conditional_select(a, b, choice.into()));
-            emit(out, finish(ev, rr.map(|x| json!({"out":fq::b(&x)}))));
-        }
-        let ev = json!({"k":"feq","field":"Fq","form":"ct_eq","a":fq::b(a),"b":fq::b(b)});
-        let rr = guarded(|| bool::from(a.ct_eq(b)));
-        emit(out, finish(ev, rr.map(|x| json!({"out":x}))));
-        // a value and the same value reached by arithmetic must be ct_eq
-        let a2 = *a + *b - *b;
-        let ev = json!({"k":"feq","field":"Fq","form":"ct_eq","a":fq::b(a),"b":fq::b(&a2)});
-        let rr = guarded(|| bool::from(a.ct_eq(&a2)));
-        emit(out, finish(ev, rr.map(|x| json!({"out":x}))));
+        fq_pair(out, a, b);
         // power: exponents with a small low limb (the call is O(low limb) on the pinned tree)
         if i % 3 == 0 {
             let nl = 1 + below(r, 5);
@@ -1076,7 +1141,12 @@ pub fn record(suite: &str, n: usize, seed: u64, arg: &str, out: &mut dyn Write) 
                 let b: Vec<u8> = serde_json::from_value(v["b"].clone()).expect("b");
                 let op = v["op"].as_str().unwrap_or("");
                 match v["field"].as_str().unwrap_or("") {
-                    "Fq" => fq::plan_line(out, op, &a, &b),
+                    "Fq" => {
+                        fq::plan_line(out, op, &a, &b);
+                        if op == "eq" {
+                            fq_pair(out, &fq::of(&a), &fq::of(&b));
+                        }
+                    }
                     "Fr" => fr::plan_line(out, op, &a, &b),
                     _ => fp::plan_line(out, op, &a, &b),
                 }
